@@ -431,7 +431,8 @@ def merge_copy(rep):
         rep.ob("O15.4", "SHAPE", fi, ok, c.func, "merge keeps reactants as reactants and products as products", node=c)
         from ..core import kwarg
         md = local_defs(fi.node)
-        rk, ik = kwarg(c, "rule"), kwarg(c, "edge_id")
+        from ..core import bound
+        rk, ik = bound(fi, c, "rule"), bound(fi, c, "edge_id")
         okf = isinstance(rk, ast.Name) and isinstance(ik, ast.Name) and \
             any(pmatch(f"getattr({ev}, 'rule', $$d)", d_.value) is not None for d_ in md.get(rk.id, []) if d_.value is not None) and \
             any(pmatch(f"getattr({ev}, 'id', None)", d_.value) is not None for d_ in md.get(ik.id, []) if d_.value is not None) and \
